@@ -185,15 +185,15 @@ PROPS = {
     "C17": {
         "level": "other",
         "verus": [("config", None)],
-        "kani": {"quick": [], "thorough": ["extractor_matches_statement_2rules"]},
+        "kani": {"quick": ["extractor_2rules_or1_and2"], "thorough": ["extractor_2rules_or2_and1", "extractor_matches_statement_2rules"]},
         "technique": "contract-based deductive verification: Verus on ConfigFragment::merge; Kani on the real generic extractor code instantiated with a symbolic matcher (callee replaced by 'any answer')",
-        "explanation": "PARTIAL / BOUNDED.  Verus proves ConfigFragment::merge: the later document overrides each scalar setting that it sets and the rewrite rules are concatenated in order.  Thorough tier: Kani runs the real "
+        "explanation": "PARTIAL / BOUNDED.  Verus proves ConfigFragment::merge: the later document overrides each scalar setting that it sets and the rewrite rules are concatenated in order.  Kani runs the real "
                        "Extractor::extract / ExtractRule::extract / MatchOrExpr::extract / MatchAndExpr::extract / Fragment += / Fragment + Matched with a matcher whose answers are symbolic per payee seen, and compares all five "
                        "Fragment fields with the statement written as plain loops (rules in order each seeing the rewritten payee; OR = first matching element; AND = all fields; captures then rule payee override; account "
                        "replaces; cleared iff some matching account rule is not pending) for <= 2 rules x <= 2 OR x <= 2 AND.  NOT decided: ConfigSet::select_impl (substring match, stable sort, fold), regexes, YAML.",
         "units_doc": ["cli/src/import/config.rs: ConfigFragment::merge", "cli/src/import/extract.rs: Extractor::extract, ExtractRule::extract, MatchOrExpr::extract, MatchAndExpr::extract, AddAssign for Fragment, Add<Matched> for Fragment (Kani, thorough)"],
         "assumptions": ["stand-ins for Encoding, AccountCommodityConfig, FormatSpec, RewriteRule (merge never looks inside)", "Option::or spec added by hand"],
-        "bounded": ["extractor: <= 2 rules x <= 2 OR-elements x <= 2 AND-fields, names from {None, p1, p2}"],
+        "bounded": ["quick: 2 rules x 1 OR-element x <= 2 AND-fields (about 4 min of CBMC); thorough: 2 rules x <= 2 OR x 1 field, and <= 2 rules x <= 2 OR x <= 2 AND (about 26 min); names from {None, p1, p2}"],
         "not_decided": ["ConfigSet::select_impl ordering and matching", "regex matchers and capture groups", "Income:/Expenses:Unknown fallback (decided under C16's Kani harness)"],
     },
     "C19": {
